@@ -539,6 +539,20 @@ func appendLogEntry(f file, v any, syncW bool) (int, error) {
 	return entryHeaderSize + len(data), writeEntry(f, data, syncW)
 }
 
+// truncateStateLog cuts an append log back to its valid prefix (see
+// readEntries) so that entries appended later directly follow intact ones.
+func truncateStateLog(fsys fs, path string, size int64) error {
+	f, err := fsys.OpenFile(path, os.O_WRONLY, 0o644)
+	if err != nil {
+		return err
+	}
+	defer f.Close()
+	if err := f.Truncate(size); err != nil {
+		return err
+	}
+	return f.Sync()
+}
+
 // partDir returns the partition directory path, URL-escaping for fs safety.
 func partDir(dataDir, topic string, part int32) string {
 	escaped := url.PathEscape(topic)
@@ -1559,6 +1573,13 @@ func (c *Cluster) loadPIDsLog(fsys fs, dir string) error {
 	entries, validBytes := readEntries(raw)
 	if validBytes < len(raw) {
 		c.cfg.logger.Logf(LogLevelWarn, "pids.log: discarding %d corrupt trailing bytes", len(raw)-validBytes)
+		// Cut the torn tail off: the log is appended to, and entries
+		// written after a corrupt entry would be unreadable.
+		if err := truncateStateLog(fsys, filepath.Join(dir, "pids.log"), int64(validBytes)); err != nil {
+			c.cfg.logger.Logf(LogLevelWarn, "pids.log: truncate: %v", err)
+		} else {
+			c.pidsLogSize.Store(int64(validBytes))
+		}
 	}
 	for _, e := range entries {
 		var entry pidLogEntry
@@ -1616,6 +1637,13 @@ func (c *Cluster) loadGroupsLog(fsys fs, dir string) error {
 	entries, validBytes := readEntries(raw)
 	if validBytes < len(raw) {
 		c.cfg.logger.Logf(LogLevelWarn, "groups.log: discarding %d corrupt trailing bytes", len(raw)-validBytes)
+		// Cut the torn tail off: the log is appended to, and entries
+		// written after a corrupt entry would be unreadable.
+		if err := truncateStateLog(fsys, filepath.Join(dir, "groups.log"), int64(validBytes)); err != nil {
+			c.cfg.logger.Logf(LogLevelWarn, "groups.log: truncate: %v", err)
+		} else {
+			c.groupsLogSize.Store(int64(validBytes))
+		}
 	}
 	r := replayGroupsLog(entries)
 
